@@ -754,7 +754,7 @@ addmember(struct structbuilder *b, struct qualtype mt, char *name, int align, un
 	size_t end;
 
 	if (t->kind == TYPESTRUCT && t->flexible)
-		error(&tok.loc, "struct has member '%s' after flexible array member", name);
+		error(&tok.loc, "struct has member '%s' after flexible array member", name ? name : "");
 	if (mt.type->incomplete) {
 		if (mt.type->kind != TYPEARRAY)
 			error(&tok.loc, "struct member '%s' has incomplete type", name);
